@@ -204,6 +204,15 @@ def runTransform (sel : String → String → Bool) (f : NodeData → NodeData)
     (h : Heap) (root : Nat) : TState :=
   (visitLog sel h root).foldl (tstep sel f) { heap := h, map := [], seen := [] }
 
+/-- the transformation with some nodes SUBSTITUTED (`subst = [(c, r), …]`: every use of `c` becomes
+    `r`, as with `map_and_copy(expr, lambda e: r if e is c else e)`): the old ↦ new map is
+    pre-seeded, the substituted nodes are not mapped themselves and their replacements count as
+    results already seen -/
+def runTransformSubst (sel : String → String → Bool) (f : NodeData → NodeData)
+    (h : Heap) (root : Nat) (subst : List (Nat × Nat)) : TState :=
+  ((visitLog sel h root).filter fun i => !(subst.any fun p => p.1 == i)).foldl (tstep sel f)
+    { heap := h, map := subst, seen := subst.map (·.2) }
+
 /-- the node function that changes nothing (CopyMapper, map_and_copy (fun x => x), deduplicate) -/
 def relabelId (nd : NodeData) : NodeData := nd
 
